@@ -2,9 +2,189 @@
 C08 — Byte-window views behave as read-only files under any seek/read history.
 -/
 import Smpl.Model.Stream
+import Smpl.Spec.AbsFile
+import Smpl.Lemmas.StreamSector
 
 namespace Smpl.Props.C08
-open Smpl Smpl.Stream
+open Smpl Smpl.Stream Smpl.Spec
+
+/-! ### arbitrary nestings of views -/
+
+/-- a nesting of views over one OS file; every object carries its identity in the shared store. -/
+inductive Shape where
+  | base   (i : Nat) (c : List Byte)
+  | wrap   (i : Nat) (sub : Shape) (eof : Int)
+  | offset (i : Nat) (sub : Shape) (eof off : Int)
+  | chain  (i : Nat) (sub : Shape) (L : Nat) (secs : List Nat)
+  | sector (i : Nat) (sub : Shape) (L nsec : Nat)
+  | mdf    (i : Nat) (sub : Shape) (nsec : Nat)
+
+namespace Shape
+
+def id : Shape → Nat
+  | base i _ | wrap i _ _ | offset i _ _ _ | chain i _ _ _ | sector i _ _ _ | mdf i _ _ => i
+
+/-- identities of the object and of everything below it (its footprint). -/
+def fp : Shape → List Nat
+  | base i _ => [i]
+  | wrap i s _ | offset i s _ _ | chain i s _ _ | sector i s _ _ | mdf i s _ => i :: s.fp
+
+/-- the stream object the code would construct. -/
+def build : Shape → FileLike
+  | base i c => mkBase c i
+  | wrap i s eof => mkWrap s.build i eof
+  | offset i s eof off => mkOffset s.build i eof off
+  | chain i s L secs => mkChain s.build i L secs
+  | sector i s L nsec => mkSector s.build i ((nsec * L : Nat) : Int) L
+  | mdf i s nsec => mkMdf s.build i ((nsec * MDF_BODY : Nat) : Int)
+
+/-- the logical content (specification; does not mention cursors or reads). -/
+def denote : Shape → List Byte
+  | base _ c => c
+  | wrap _ s eof => slice s.denote 0 eof
+  | offset _ s eof off => slice s.denote off eof
+  | chain _ s L secs => secContent s.denote L (secs.map (· * L))
+  | sector _ s L nsec => secContent s.denote L ((List.range nsec).map (· * L))
+  | mdf _ s nsec => secContent s.denote MDF_BODY ((List.range nsec).map (· * MDF_SECTOR + MDF_HEADER))
+
+def isBase : Shape → Bool
+  | base _ _ => true
+  | _ => false
+
+/-- well-formedness: non-empty window inside the content below it, fresh identity, and the shared
+cell-invariant family `ok` says "cursor within [0, length]" for this object. -/
+def WF (ok : Nat → Cell → Prop) : Shape → Prop
+  | base i _ => ∀ cell, ok i cell ↔ 0 ≤ cell.pos
+  | wrap i s eof => s.WF ok ∧ i ∉ s.fp ∧ 0 < eof ∧ eof ≤ s.denote.length ∧
+      (∀ cell, ok i cell ↔ (0 ≤ cell.pos ∧ cell.pos ≤ eof))
+  | offset i s eof off => s.WF ok ∧ i ∉ s.fp ∧ 0 < eof ∧ 0 ≤ off ∧ off + eof ≤ s.denote.length ∧
+      (∀ cell, ok i cell ↔ (0 ≤ cell.pos ∧ cell.pos ≤ eof))
+  | chain i s L secs => s.WF ok ∧ i ∉ s.fp ∧ 0 < L ∧ secs ≠ [] ∧
+      (∀ sct ∈ secs, (sct + 1) * L ≤ s.denote.length) ∧
+      (∀ cell, ok i cell ↔ (0 ≤ cell.pos ∧ cell.pos ≤ ((L * secs.length : Nat) : Int)))
+  | sector i s L nsec => s.WF ok ∧ i ∉ s.fp ∧ 0 < L ∧ 0 < nsec ∧ nsec * L ≤ s.denote.length ∧
+      (∀ cell, ok i cell ↔ (0 ≤ cell.pos ∧ cell.pos ≤ ((nsec * L : Nat) : Int)))
+  | mdf i s nsec => s.WF ok ∧ i ∉ s.fp ∧ 0 < nsec ∧ nsec * MDF_SECTOR ≤ s.denote.length ∧
+      (∀ cell, ok i cell ↔ (0 ≤ cell.pos ∧ cell.pos ≤ ((nsec * MDF_BODY : Nat) : Int)))
+
+end Shape
+
+/-- every well-formed nesting offers the substream interface … -/
+theorem build_isSub (ok : Nat → Cell → Prop) (sh : Shape) (h : sh.WF ok) :
+    IsSub sh.build sh.denote sh.id sh.fp ok := by
+  induction sh with
+  | base i c => exact mkBase_isSub c i ok h
+  | wrap i s eof ih =>
+    obtain ⟨h1, h2, h3, h4, h5⟩ := h
+    exact (mkWrap_isFile (ih h1) i h2 eof h3 h4 h5).toIsSub
+  | offset i s eof off ih =>
+    obtain ⟨h1, h2, h3, h4, h5, h6⟩ := h
+    exact (mkOffset_isFile (ih h1) i h2 eof off h3 h4 h5 h6).toIsSub
+  | chain i s L secs ih =>
+    obtain ⟨h1, h2, h3, h4, h5, h6⟩ := h
+    exact (mkChain_isFile (ih h1) i h2 L h3 secs h4 h5 h6).toIsSub
+  | sector i s L nsec ih =>
+    obtain ⟨h1, h2, h3, h4, h5, h6⟩ := h
+    exact (mkSector_isFile (ih h1) i h2 L h3 nsec h4 h5 h6).toIsSub
+  | mdf i s nsec ih =>
+    obtain ⟨h1, h2, h3, h4, h5⟩ := h
+    exact (mkMdf_isFile (ih h1) i h2 nsec h3 h4 h5).toIsSub
+
+/-- … and every view (anything but the OS file itself) is a read-only file over its logical content. -/
+theorem build_isFile (ok : Nat → Cell → Prop) (sh : Shape) (h : sh.WF ok) (hb : sh.isBase = false) :
+    IsFile sh.build sh.denote sh.id sh.fp ok := by
+  cases sh with
+  | base i c => simp [Shape.isBase] at hb
+  | wrap i s eof =>
+    obtain ⟨h1, h2, h3, h4, h5⟩ := h
+    exact mkWrap_isFile (build_isSub ok s h1) i h2 eof h3 h4 h5
+  | offset i s eof off =>
+    obtain ⟨h1, h2, h3, h4, h5, h6⟩ := h
+    exact mkOffset_isFile (build_isSub ok s h1) i h2 eof off h3 h4 h5 h6
+  | chain i s L secs =>
+    obtain ⟨h1, h2, h3, h4, h5, h6⟩ := h
+    exact mkChain_isFile (build_isSub ok s h1) i h2 L h3 secs h4 h5 h6
+  | sector i s L nsec =>
+    obtain ⟨h1, h2, h3, h4, h5, h6⟩ := h
+    exact mkSector_isFile (build_isSub ok s h1) i h2 L h3 nsec h4 h5 h6
+  | mdf i s nsec =>
+    obtain ⟨h1, h2, h3, h4, h5⟩ := h
+    exact mkMdf_isFile (build_isSub ok s h1) i h2 nsec h3 h4 h5
+
+/-! ### histories -/
+
+def runOps (f : FileLike) : List Op → Store → List Out × Store
+  | [], s => ([], s)
+  | op :: rest, s =>
+    let (o, s1) := runOp f op s
+    let (os, s2) := runOps f rest s1
+    (o :: os, s2)
+
+/-- one step of a file object is one step of the abstract file; the global invariant and the frame
+are preserved. -/
+theorem step_refines {f : FileLike} {c : List Byte} {i : Nat} {fp : List Nat}
+    {ok : Nat → Cell → Prop} (hf : IsFile f c i fp ok) (op : Op) (hop : opOk op) (s : Store)
+    (hs : GInv ok s) :
+    (runOp f op s).1 = (absStep c (s i).pos op).1 ∧
+    ((runOp f op s).2 i).pos = (absStep c (s i).pos op).2 ∧
+    GInv ok (runOp f op s).2 ∧ Frame fp s (runOp f op s).2 := by
+  cases op with
+  | tell => simp [runOp, absStep, hf.tell, hs, Frame.refl]
+  | seek off wh =>
+    obtain ⟨s', h1, h2, h3, h4⟩ := hf.seekFull s off wh hs
+    simp [runOp, absStep, h1, h2, h3, h4]
+  | read n =>
+    obtain ⟨s', h1, h2, h3, h4⟩ := hf.read s n hs hop
+    simp [runOp, absStep, h1, h2, h3, h4]
+
+/-- **C08 (refinement).** For any object that satisfies the file specification — in particular
+every well-formed nesting of windows, sector chains, raw-sector views (`build_isFile`) — and any
+history of `tell` / `seek(offset, whence)` / `read(n ≥ 0)`, from any store satisfying the global
+invariant (whatever the cursors of the objects underneath are): the answers are exactly those of an
+ordinary read-only file over the logical content. -/
+theorem C08_refines {f : FileLike} {c : List Byte} {i : Nat} {fp : List Nat}
+    {ok : Nat → Cell → Prop} (hf : IsFile f c i fp ok) (ops : List Op) (hops : ∀ op ∈ ops, opOk op)
+    (s : Store) (hs : GInv ok s) :
+    (runOps f ops s).1 = absRun c (s i).pos ops := by
+  induction ops generalizing s with
+  | nil => rfl
+  | cons op rest ih =>
+    obtain ⟨h1, h2, h3, _⟩ := step_refines hf op (hops op (List.mem_cons_self ..)) s hs
+    simp only [runOps, absRun]
+    rw [h1, ih (fun o ho => hops o (List.mem_cons_of_mem _ ho)) _ h3, h2]
+
+/-- the same, for shapes: any nesting depth. -/
+theorem C08_refines_shape (ok : Nat → Cell → Prop) (sh : Shape) (h : sh.WF ok)
+    (hb : sh.isBase = false) (ops : List Op) (hops : ∀ op ∈ ops, opOk op) (s : Store)
+    (hs : GInv ok s) :
+    (runOps sh.build ops s).1 = absRun sh.denote (s sh.id).pos ops :=
+  C08_refines (build_isFile ok sh h hb) ops hops s hs
+
+/-- no byte outside the window is ever returned: every read answer is a slice of the logical content. -/
+theorem C08_window (c : List Byte) (p : Int) (ops : List Op) :
+    ∀ o ∈ absRun c p ops, ∀ b, o = .bytes b → ∃ q n, b = slice c q n := by
+  induction ops generalizing p with
+  | nil => intro o ho; simp [absRun] at ho
+  | cons op rest ih =>
+    intro o ho b hb
+    simp only [absRun, List.mem_cons] at ho
+    rcases ho with rfl | ho
+    · cases op with
+      | tell => simp [absStep] at hb
+      | seek off wh => simp [absStep] at hb
+      | read n => simp only [absStep] at hb; injection hb with hb; exact ⟨p, n, hb.symm⟩
+    · exact ih _ o ho b hb
+
+/-- the cursor stays inside `[0, length]` and a read never returns more than asked. -/
+theorem C08_cursor_bounds (c : List Byte) (p : Int) (op : Op) (h0 : 0 ≤ p) (h1 : p ≤ c.length)
+    (hop : opOk op) : 0 ≤ (absStep c p op).2 ∧ (absStep c p op).2 ≤ c.length := by
+  cases op with
+  | tell => exact ⟨h0, h1⟩
+  | seek off wh => exact seekTarget_range _ _ _ _ (by omega)
+  | read n =>
+    simp only [absStep]
+    have := slice_length c p n h0 hop
+    omega
 
 /-- the plan of a sector read covers exactly `size` bytes (when the sector length is positive). -/
 theorem pieces_total (L : Nat) (hL : 0 < L) (fuel pos size : Nat) (h : size ≤ fuel) :
@@ -20,5 +200,28 @@ theorem pieces_total (L : Nat) (hL : 0 < L) (fuel pos size : Nat) (h : size ≤ 
       have hn : 0 < min size (L - pos % L) := by omega
       rw [ih (pos + min size (L - pos % L)) (size - min size (L - pos % L)) (by omega)]
       omega
+
+/-! ### non-vacuity: a concrete permuted chain inside an offset window -/
+
+/-- cell invariants for the example objects 0 (file), 1 (window), 2 (chained file). -/
+def exOk : Nat → Cell → Prop
+  | 0, c => 0 ≤ c.pos
+  | 1, c => 0 ≤ c.pos ∧ c.pos ≤ 8
+  | 2, c => 0 ≤ c.pos ∧ c.pos ≤ 6
+  | _, _ => True
+
+def exShape : Shape :=
+  .chain 2 (.offset 1 (.base 0 [16, 17, 18, 19, 20, 21, 22, 23, 24, 25, 26, 27]) 8 2) 2 [3, 0, 1]
+
+example : exShape.WF exOk := by
+  simp [exShape, Shape.WF, exOk, Shape.fp, Shape.denote, slice]
+example : exShape.denote = [24, 25, 18, 19, 20, 21] := by decide
+example : GInv exOk store0 := by
+  intro j
+  match j with
+  | 0 => simp [exOk, store0]
+  | 1 => simp [exOk, store0]
+  | 2 => simp [exOk, store0]
+  | _ + 3 => simp [exOk]
 
 end Smpl.Props.C08
